@@ -450,7 +450,24 @@ class Executor(object):
             pc.append(z3.Implies(c, x))
         for x in b.pc[npc0 + 1:]:
             pc.append(z3.Implies(z3.Not(c), x))
-        return State(env, pc, list(a.trace))
+        # caller frames (statement-level inlined calls): merged with the same
+        # memo so that objects shared with the callee stay shared
+        frames = []
+        if len(a.frames) != len(b.frames):
+            return None
+        try:
+            for fa, fb in zip(a.frames, b.frames):
+                f = {}
+                for k in set(fa) | set(fb):
+                    va, vb = fa.get(k, _UNBOUND), fb.get(k, _UNBOUND)
+                    if va is _UNBOUND or vb is _UNBOUND:
+                        f[k] = _Poison(k)
+                    else:
+                        f[k] = self._merge_val(c, va, vb, memo)
+                frames.append(f)
+        except _NoMerge:
+            return None
+        return State(env, pc, list(a.trace), frames)
 
     def _merge_val(self, c, va, vb, memo):
         if va is vb:
@@ -826,12 +843,12 @@ class Executor(object):
                 v0 = self.eval_spec(spec.variant, sb)
                 self.oblige('%s.variant.nonneg' % tag, sb,
                             S.cmp('>=', v0, 0), self.where(node), 'variant')
+            iv_cur = sb.env.get(ivar) if is_for else None
             for s3, sig in self.exec_block(node.body, sb):
                 spec.log['ends'].append((s3.clone(), sig))
                 if sig is None or sig[0] == 'continue':
                     if is_for:
-                        s3.env[ivar] = S.add(s3.env[ivar + '__cur']
-                                             if False else sb.env[ivar], 1)
+                        s3.env[ivar] = S.add(iv_cur, 1)
                     inv_holds(s3, 'step', 'inv-step')
                     if v0 is not None:
                         v1 = self.eval_spec(spec.variant, s3)
@@ -882,6 +899,8 @@ class Executor(object):
             raise VCError('assignment target %s' % type(target).__name__)
 
     def store(self, base, idx, v, st, node):
+        if hasattr(base, 'vc_setitem'):
+            return base.vc_setitem(idx, v, self, st, node)
         if isinstance(base, list):
             if isinstance(idx, tuple):   # a[i, j] on nested lists
                 for i in idx[:-1]:
